@@ -207,6 +207,17 @@ Definition wf_tx (k : txid) (t : tx) : bool :=
   forallb (fun op => bool_decide (op.1 < k)%N) (t_ins t) &&
   (negb (t_coinbase t) || bool_decide (t_ins t = [])).
 
+(** every input that names a universe transaction names one of its existing
+    outputs (a validating node never relays anything else) *)
+Definition ins_in_range_b (U : universe) : bool :=
+  forallb (fun kv : N * tx =>
+    forallb (fun op : outpoint =>
+      match U !! op.1 with
+      | Some p => bool_decide (N.to_nat op.2 < length (t_outs p))%nat
+      | None => true
+      end) (t_ins kv.2)) (map_to_list U).
+
 Definition wf_universe (U : universe) : bool :=
   bool_decide (U !! 0%N = None) &&
-  forallb (fun kv => wf_tx kv.1 kv.2) (map_to_list U).
+  forallb (fun kv => wf_tx kv.1 kv.2) (map_to_list U) &&
+  ins_in_range_b U.
